@@ -31,6 +31,7 @@ func signalChanges() {
 	// reset validity flag
 	validityFlagLock.Lock()
 	validityFlag.SetTo(false)
+	verifPoint("config.signal.invalidated")
 	validityFlag = abool.NewBool(true)
 	validityFlagLock.Unlock()
 
@@ -105,6 +106,7 @@ func ReplaceConfig(newValues map[string]interface{}) (validationErrors []*Valida
 		}()
 	}
 
+	verifPoint("config.replace.stored")
 	signalChanges()
 
 	return validationErrors, requiresRestart
@@ -143,6 +145,7 @@ func ReplaceDefaultConfig(newValues map[string]interface{}) (validationErrors []
 		}()
 	}
 
+	verifPoint("config.replace.stored")
 	signalChanges()
 
 	return validationErrors, requiresRestart
@@ -185,6 +188,7 @@ func setConfigOption(key string, value any, push bool) (err error) {
 	}
 
 	// finalize change, activate triggers
+	verifPoint("config.set.stored")
 	signalChanges()
 
 	return SaveConfig()
@@ -227,6 +231,7 @@ func setDefaultConfigOption(key string, value interface{}, push bool) (err error
 	}
 
 	// finalize change, activate triggers
+	verifPoint("config.set.stored")
 	signalChanges()
 
 	// Do not save the configuration, as it only saves the active values, not the
